@@ -3,7 +3,7 @@
 Engine E1 (bounded-exhaustive configuration lattice), DESIGN.md section 5/C12.
 
 States
-  map  : (map class, injective index assignment into 5 raw features) - for each, the
+  map  : (map class, index assignment into 5 raw features, coincident indices included) - for each, the
          whole parameter alphabet x raw-input lattice is run inside the state.
   pair : (class A, class B) sharing raw indices: additivity of fill_derivs_.
   norm : (slmode, normaliser class at every position of a FeatNormalizerList).
@@ -25,7 +25,7 @@ import numpy as np
 ID = "C12"
 VARIANT = None
 LEVEL_RULE = (
-    "states = (map class x injective index assignment) + (class pair) + (slmode x normaliser mix); "
+    "states = (map class x index assignment incl. coincident indices) + (class pair) + (slmode x normaliser mix); "
     "every state runs the full parameter alphabet x raw-input lattice; a state is non-trivial if its "
     "Jacobian has a non-zero entry; distinct = distinct rounded Jacobian hashes"
 )
@@ -138,8 +138,12 @@ def _deriv_numeric(m, x, code):
 def initial_cases(tier, seed):
     cases = []
     for code, (names, doms, _) in SPEC.items():
-        for assign in itertools.permutations(range(NRAW), len(names)):
-            cases.append({"kind": "map", "cls": code, "assign": list(assign), "seed": seed})
+        # every index assignment, including coincident indices (two slots reading the same raw feature) wherever the
+        # two slots have the same admissible domain; the derivative w.r.t. a shared raw feature is the sum of the slots'
+        for assign in itertools.product(range(NRAW), repeat=len(names)):
+            ok = all(doms[a] is doms[b] for a in range(len(names)) for b in range(a) if assign[a] == assign[b])
+            if ok:
+                cases.append({"kind": "map", "cls": code, "assign": list(assign), "seed": seed})
     codes = list(SPEC)
     for a in codes:
         for b in codes:
